@@ -175,14 +175,19 @@ def string_replace_map(line, lower=False):
 
     items = []
     string_map = StringReplaceDict()
+    # Reverse maps, one per kind of replacement so that, for instance, the
+    # content of a string can never be mistaken for a parenthesised
+    # expression with the same text.
     rev_string_map = {}
+    rev_const_map = {}
+    rev_parens_map = {}
     for item in splitquote(line, lower=lower)[0]:
         if isinstance(item, String) and not _is_simple_str(item[1:-1]):
-            key = rev_string_map.get(item)
+            trimmed = item[1:-1]
+            key = rev_string_map.get(trimmed)
             if key is None:
                 str_idx += 1
                 key = "_F2PY_STRING_CONSTANT_{0}_".format(str_idx)
-                trimmed = item[1:-1]
                 string_map[key] = trimmed
                 rev_string_map[trimmed] = key
             items.append(item[0] + key + item[-1])
@@ -196,12 +201,12 @@ def string_replace_map(line, lower=False):
         # *without* any preceding non-word character.
         found = item.group(1)
 
-        key = rev_string_map.get(found)
+        key = rev_const_map.get(found)
         if key is None:
             const_idx += 1
             key = "F2PY_REAL_CONSTANT_{0}_".format(const_idx)
             string_map[key] = found
-            rev_string_map[found] = key
+            rev_const_map[found] = key
             const_keys.append(key)
         newline = newline.replace(found, key)
 
@@ -209,13 +214,13 @@ def string_replace_map(line, lower=False):
     expr_keys = []
     for item in splitparen(newline):
         if isinstance(item, ParenString) and not _is_name(item[1:-1].strip()):
-            key = rev_string_map.get(item)
+            key = rev_parens_map.get(item)
             if key is None:
                 parens_idx += 1
                 key = "F2PY_EXPR_TUPLE_{0}".format(parens_idx)
                 trimmed = item[1:-1].strip()
                 string_map[key] = trimmed
-                rev_string_map[trimmed] = key
+                rev_parens_map[item] = key
                 expr_keys.append(key)
             items.append(item[0] + key + item[-1])
         else:
